@@ -335,4 +335,5 @@ class Engine(FsMixin, ExprMixin, StmtMixin, CallMixin, SpecMixin, BuiltinMixin, 
             o = z3.Int("o!frame")
             exc = [o != Val.r(x.t) for x in allowed.get(f, [])]
             goal = qforall([o], z3.Implies(z3.And(o < self.frontier, *exc), z3.Select(st.heap[f], o) == z3.Select(entry.field(f), o)))
-            self.oblige(f"frame {key}: only {[clause_text(m) for m in mods]} may change (field {f})", "frame", goal, st)
+            self.oblige(f"frame {key}: only {[clause_text(m) for m in mods]} may change (field {f})", "frame", goal, st,
+                        info=dict(clause="__frame__" if not mods else None, tag="frame", field=f))
